@@ -112,6 +112,11 @@ def run_wq(c):
                 r0 = weighted_quantile(np.array(c["values"]), np.array(c["qs"]), log_weights=np.array(c["logw"]),
                                        values_sorted=True)
                 out["q0"] = [float(v) for v in np.ravel(r0)]
+            if c.get("perm"):
+                # the same data handed over in another order, not declared sorted: same answer
+                pm = np.array(c["perm"])
+                rp = weighted_quantile(np.array(c["values"])[pm], np.array(c["qs"]), log_weights=(np.array(c["logw"]) + sh)[pm])
+                out["qp"] = [float(v) for v in np.ravel(rp)]
             if c.get("kind") == "equal":
                 ru = weighted_quantile(np.array(c["values"]), np.array(c["qs"]), values_sorted=True)
                 out["qu"] = [float(v) for v in np.ravel(ru)]
